@@ -1,6 +1,6 @@
 //! Construction of `Fetch<EntitiesRes>` and of allocator states.
 //!
-//! Under Kani the `Fetch` comes from the shred model's `verif_from_cell`
+//! Under Kani the `Fetch` comes from the shred model's `verif_from_ref`
 //! (no `World`: a `World` is a `TypeId`-keyed hash map, out of CBMC's reach);
 //! natively (counterexample replay against the real shred) it comes from a
 //! real `World` holding only the entities resource.
@@ -10,7 +10,7 @@ use vsupport::nd;
 
 #[cfg(kani)]
 pub struct Env {
-    cell: shred::cell::AtomicRefCell<Box<dyn shred::Resource>>,
+    ent: EntitiesRes,
 }
 #[cfg(not(kani))]
 pub struct Env {
@@ -20,9 +20,7 @@ pub struct Env {
 impl Env {
     #[cfg(kani)]
     pub fn new(ent: EntitiesRes) -> Env {
-        Env {
-            cell: shred::cell::AtomicRefCell::new(Box::new(ent)),
-        }
+        Env { ent }
     }
     #[cfg(not(kani))]
     pub fn new(ent: EntitiesRes) -> Env {
@@ -33,7 +31,7 @@ impl Env {
 
     #[cfg(kani)]
     pub fn fetch(&self) -> shred::Fetch<'_, EntitiesRes> {
-        shred::Fetch::verif_from_cell(&self.cell)
+        shred::Fetch::verif_from_ref(&self.ent)
     }
     #[cfg(not(kani))]
     pub fn fetch(&self) -> shred::Fetch<'_, EntitiesRes> {
